@@ -233,6 +233,96 @@ def judge(hist: dict, res: dict) -> list[tuple[dict, str]]:
     return out
 
 
+def judge_file(hist: dict, res: dict) -> list[tuple[dict, str]]:
+    """File-sourced level: A replays a packet log, B (fresh, file-sourced, no packet of its own) is started with A's snapshot."""
+    from datetime import datetime, timedelta
+
+    from ramses_tx.packet import Packet
+
+    out: list[tuple[dict, str]] = []
+    if "a_snapshot_raised" in res:
+        r = res["a_snapshot_raised"]
+        return [({"clause": "snapshot-raises", "level": "file", "exc": r["exc"], "site": r["site"]}, f"source gateway: {r}")]
+    pkts_a = res["pkts_a"]
+    inc = bool(hist.get("include_expired"))
+    out += [(dict(sig, level="file"), d) for sig, d in content_rules(pkts_a, True, None, None)]  # decodes / no RQ / no W but 0404
+    if not inc and pkts_a:
+        # independent of the library's clock: 'now' for a file-sourced gateway is the newest packet it has read; a packet is expired for
+        # certain once its age exceeds twice its lifetime plus the 3 s grace (the statement of C14; the lifetime is the library's own figure)
+        now = max(datetime.fromisoformat(ts) for ts, _ in [res["lines"][-1]])
+        for dtm, line in pkts_a.items():
+            try:
+                pkt = Packet.from_dict(dtm, line)
+            except Exception:  # noqa: BLE001
+                continue
+            life = pkt._lifespan
+            if pkt.code == "1F09" and pkt.verb != "RQ":  # the sync cycle: its lifetime is the countdown it carries (Message._expired)
+                life = timedelta(seconds=int(pkt.payload[2:6], 16) / 10)
+            if pkt.code == "313F" or not isinstance(life, timedelta) or life <= timedelta(0):
+                continue
+            if now - pkt.dtm > 2 * life + timedelta(seconds=3, milliseconds=1):
+                out.append(({"clause": "snapshot-has-expired", "level": "file", "code": str(pkt.code)},
+                            f"{dtm} {line}: age {now - pkt.dtm} > 2 x lifetime {life} + 3 s at the newest packet's time {now}"))
+                break
+    if "b_start_raised" in res:
+        r = res["b_start_raised"]
+        out.append(({"clause": "fresh-gateway-rejects-snapshot", "level": "file", "what": f"{r['exc']} @ {r['site']}"}, f"{r}"))
+        return out
+    if "b_snapshot_raised" in res:
+        r = res["b_snapshot_raised"]
+        out.append(({"clause": "snapshot-raises", "level": "file-restored", "exc": r["exc"], "site": r["site"]}, f"restored gateway: {r}"))
+        return out
+    a, b, b2 = strip_own(pkts_a), strip_own(res["pkts_b"]), strip_own(res["pkts_b2"])
+    if a != b:
+        only_a, only_b = sorted(set(a.items()) - set(b.items())), sorted(set(b.items()) - set(a.items()))
+        first = (only_a or only_b)[0][1]
+        out.append(({"clause": "packets-differ-after-restore", "level": "file", "kind": "lost" if not only_b else "gained" if not only_a else "changed",
+                     "code": first[41:45], "array_fragment": _is_array_fragment(first)}, f"only in source {only_a[:3]} / only in restored {only_b[:3]} ({len(only_a)}, {len(only_b)})"))
+    elif b2 != b:
+        out.append(({"clause": "second-restore-changes-state", "level": "file"}, f"{sorted(set(b.items()) ^ set(b2.items()))[:4]}"))
+    if not hist.get("eavesdrop"):
+        # the restored gateway has no clock of its own (it has read no packet: 1970), so nothing in it is ever 'expired' and the orphan lists
+        # (devices that are 'present', i.e. have a live message) legitimately differ from the source's: compared are the structural
+        # components - controllers, zones (class, sensor, actuators), hot water, appliance control (as in C15)
+        from vf.props.c15 import named_components
+
+        ca, cb = named_components(res["schema_a"]), named_components(res["schema_b"])
+        if ca != cb:
+            out.append(({"clause": "schema-differs-after-restore", "level": "file"}, f"{jdump(ca)[:400]} vs {jdump(cb)[:400]}"))
+    return out
+
+
+def explore_file(job: dict) -> dict:
+    from hypothesis import strategies as st
+
+    from vf.env import gwrig
+    from vf.env.quiet import quiet_logs
+    from vf.gen.histories import history
+
+    quiet_logs()
+    col = Collector()
+
+    @st.composite
+    def case(draw: Any) -> dict:
+        h = draw(history(max_len=80, synthetic=False))
+        gaps = draw(st.lists(st.sampled_from((0.01, 0.05, 0.3, 1.0, 5.0, 30.0, 200.0, 900.0, 2000.0, 4000.0, 8000.0, 90000.0)), min_size=1, max_size=8))
+        # the LAST gap matters most (the clock is the newest packet): often a long one
+        last = draw(st.sampled_from((0.05, 100.0, 400.0, 800.0, 2500.0, 4000.0, 8000.0, 30000.0)))
+        return {"level": "file", "frames": h["frames"], "system": h["system"], "mutations": h["mutations"], "gaps": gaps, "last_gap": last,
+                "eavesdrop": draw(st.integers(0, 2)) == 0, "include_expired": draw(st.integers(0, 2)) == 0, "rnd": draw(st.integers(0, 1000))}
+
+    def body(hist: dict) -> None:
+        res = gwrig.run_file(hist)
+        n = len(res.get("pkts_a") or {})
+        col.case(nt=jdump(hist) if n >= 20 else None, classes=["file-state", f"file-include_expired:{hist['include_expired']}", "file-big-state" if n >= 20 else "file-small-state"],
+                 sample={"level": "file", "system": hist["system"], "n": len(hist["frames"]), "gaps": hist["gaps"], "last_gap": hist["last_gap"], "n_pkts": n})
+        for sig, detail in judge_file(hist, res):
+            col.violation(sig, hist, detail)
+
+    hyp_explore(case(), body, job["n"], job["seed"])
+    return col.dump()
+
+
 def explore(job: dict) -> dict:
     from hypothesis import strategies as st
 
@@ -299,8 +389,11 @@ def run(ctx: Ctx, col: Collector) -> None:
         "the fresh gateway is constructed with the source's schema and started with cached_packets at the same virtual instant",
         "the schema comparison is made on shrink(schema) and only with eavesdropping off, as the statement says",
         "a 'packets only' restore (no schema) is not enforced",
+        "file-sourced level: 'now' is the time stamp of the newest packet of the log; 'expired' there = older than twice the library-declared lifetime + 3 s (an oracle that does not use the gateway's own clock)",
     ]
     ctx.parallel(explore, ctx.shards(ctx.n(400, 12_000), per_shard_min=8), col)
+    # file-sourced gateways (clock = the newest packet read; the restored one has read none): snapshot content, fixpoint, second restore
+    ctx.parallel(explore_file, ctx.shards(ctx.n(320, 10_000), per_shard_min=8), col)
     ctx.floors = [("big-state", "state", 0.15)]
 
 
@@ -309,5 +402,9 @@ def replay(case: dict) -> list[tuple[dict, str]]:
     from vf.env.quiet import quiet_logs
 
     quiet_logs()
+    if case.get("level") == "file":
+        from vf.env import gwrig
+
+        return judge_file(case, gwrig.run_file(case))
     res, _ = vclock.run(_scenario, case)
     return judge(case, res)
